@@ -5,6 +5,7 @@ CONSTANTS
   Preface = 0
   Peek = 0
   MaxTimeouts = 0
+  Priors = {0}
   Defects = {}
 SPECIFICATION TraceSpec
 POSTCONDITION Accepted
